@@ -376,6 +376,10 @@ func ens_mwWrite_n(w *messageWriter, old_p []byte, ret0 int, ret1 error) bool {
 	return ret1 != nil || ret0 == len(old_p) && spec_plLen(w) == oldspec_plLen(w)+len(old_p)
 }
 
+// after a successful Write the writer is ready for the next Write, or for Close to send what is pending
+//@ ensures (*messageWriter).Write C13.payload.write.ready
+func ens_mwWrite_ready(w *messageWriter, ret1 error) bool { return ret1 != nil || spec_wfMessageWriter(w) }
+
 //@ invariant (*messageWriter).Write 0
 func inv_mwWrite0(w *messageWriter, old_p []byte, p []byte, nn int) bool {
 	done := len(old_p) - len(p)
@@ -516,8 +520,13 @@ func req_hpe(c *Conn) bool { return spec_wfWriterLock(c) }
 // every protocol error is answered with a Close frame carrying status 1002 and reported as an error
 //@ at-call (*Conn).handleProtocolError WriteControl C14.close-1002
 func at_hpe(arg_messageType int, arg_data []byte) bool {
-	return arg_messageType == CloseMessage && len(arg_data) >= 2 && arg_data[0] == 1002>>8 && arg_data[1] == 1002&0xff
+	return arg_messageType == CloseMessage && len(arg_data) >= 2 && arg_data[0] == 1002>>8 && arg_data[1] == 1002&0xff &&
+		len(arg_data) <= maxControlFramePayloadSize // (WriteControl refuses anything longer: the Close would never be sent)
 }
+
+// so the reason text of a protocol error must fit a control frame behind the two status bytes
+//@ requires (*Conn).handleProtocolError
+func req_hpe_fits(message string) bool { return len(message) <= maxControlFramePayloadSize-2 }
 
 //@ ensures (*Conn).handleProtocolError C14.protocol-error.returns-error
 func ens_hpe(ret0 error) bool { return ret0 != nil }
@@ -747,9 +756,8 @@ func ens_mrRead_payload(r *messageReader, b []byte, ret0 int) bool {
 	if !c.isServer {
 		return prim_forall(ret0, func(i int) bool { return b[i] == ghost_rd_at(c.br, at+i) })
 	}
-	key := c.readMaskKey[:]
 	p0 := c.readMaskPos - ret0
-	return prim_forall(ret0, func(i int) bool { return b[i] == ghost_rd_at(c.br, at+i)^key[(p0+i)&3] })
+	return prim_forall(ret0, func(i int) bool { return b[i] == ghost_rd_at(c.br, at+i)^c.readMaskKey[(p0+i)&3] })
 }
 
 //@ invariant (*messageReader).Read 0
@@ -814,17 +822,41 @@ func inv_NextReader0(c *Conn) bool {
 
 //@ assigns (*Conn).NextReader c.reader, c.messageReader, c.readErr, c.readErrCount, c.readRemaining, c.readFinal, c.readLength, c.readDecompress, c.readMaskPos, c.readMaskKey, c.writeErr, c.writeErrMu, ghost.rd(c.br), ghost.ioerr, ghost.lock(c.mu), ghost.wr(c.conn)
 
-// ---------- C13: Conn.WriteMessage, the server's single-frame fast path ----------
-// (no unfinished message writer, no compression negotiated)
+// ---------- C13: NextWriter ----------
+// The writer handed to the application is the one the connection remembers as open: it is THAT writer (the message
+// writer, or the compressor wrapped around it) which the next NextWriter/WriteMessage closes when the application did
+// not, and only closing the outermost one flushes everything. (The compressor itself is a user-supplied constructor
+// here: an arbitrary io.WriteCloser.)
+//@ assume-pure-handlers (*Conn).NextWriter
+//@ inline (*Conn).NextWriter
+//@ requires (*Conn).NextWriter
+func req_NextWriter(c *Conn) bool { return spec_wfWriterLock(c) && !c.isWriting && c.writer == nil }
+
+//@ ensures (*Conn).NextWriter C13.nextwriter.remembered
+func ens_NextWriter(c *Conn, ret0 io.WriteCloser, ret1 error) bool {
+	if ret1 != nil {
+		return ret0 == nil
+	}
+	return c.writer == ret0 // (non-nil unless the user-supplied compressor constructor returns nil)
+}
+
+//@ assigns (*Conn).NextWriter c.writer, c.writeErrMu, any(messageWriter)
+
+// ---------- C13: Conn.WriteMessage: the server's single-frame fast path, and the general path of a client ----------
+// (no unfinished message writer; no compression negotiated, or, for a client, compression switched off)
 //@ requires (*Conn).WriteMessage
 func req_ConnWriteMessage(c *Conn) bool {
-	return spec_wfWriterLock(c) && !c.isWriting && c.writer == nil && c.isServer && c.newCompressionWriter == nil && len(c.writeBuf) > maxFrameHeaderSize
+	return spec_wfWriterLock(c) && !c.isWriting && c.writer == nil && len(c.writeBuf) > maxFrameHeaderSize &&
+		(c.newCompressionWriter == nil || !c.isServer && !c.enableWriteCompression)
 }
+
+//@ requires (*Conn).WriteMessage
+func req_ConnWriteMessage_data(c *Conn, data []byte) bool { return prim_disjoint(data, c.writeBuf) }
 
 // a message of any size goes out as ONE final frame: a valid header for its opcode and length, then len(data) bytes
 //@ ensures (*Conn).WriteMessage C13.writemessage.single-frame
 func ens_ConnWriteMessage(c *Conn, messageType int, data []byte, ret0 error) bool {
-	if ret0 != nil {
+	if ret0 != nil || !c.isServer { // (a client masks and may need several frames: it goes through the message writer)
 		return true
 	}
 	t, o, n := c.conn, ghost_old_wr_len(c.conn), len(data)
